@@ -356,8 +356,8 @@ def mapping_for(fn: ast.AST, ref: Dict[str, object]) -> Dict[str, str]:
             back = [c2 for c2 in new_cur if cur_shapes[c2] == cur_shapes[c]]
             if len(cands) == 1 and len(back) == 1:
                 mapping[c] = cands[0]
-            elif len(cands) == len(back) > 1:
-                # k new locals and k vanished ones share one binding shape ('x: RP2Decimal = ZERO' twice): paired in first-binding order. Any bijection
+            elif len(cands) >= 1 and c in back[: len(cands)]:
+                # new locals and vanished ones that share one binding shape ('x: RP2Decimal = ZERO'): paired in first-binding order (surplus new ones keep their names). Any injection
                 # between names that exist on one side only is a pure renaming; a wrong pairing can only make a rule miss its roles, never find them
                 mapping[c] = cands[back.index(c)]
     if not mapping:
